@@ -264,14 +264,14 @@ Qed.
 Variables (rs : results) (tws : list tower) (l : list result) (r0 : result).
 Let c := @mkCtx N T V F A (names rs) l r0.
 
-Lemma eval_blocks_canon (is3d : bool) (k : fkey) :
-  eval_blocks eqbN zeroF E is3d c rs (canon_block is3d k) =
+Lemma eval_blocks_canon (is3d : bool) (ks k : fkey) :
+  eval_blocks eqbN zeroF E is3d c rs (canon_block is3d ks k) =
   if existsb (fun nm => Nat.ltb (List.length l) (List.length (steps_of eqbN rs nm))) (names rs) then None
   else Some (data eqbN zeroF (fsel k) rs (List.length l)).
 Proof.
   unfold eval_blocks, canon_block.
-  assert (Hb : block_shape_ok is3d (if is3d then [DShape KFlx 3 0; DShape KFlx 3 1; DShape KFlx 3 2]
-                                    else [DShape KFlx 2 0; DShape KFlx 2 1]) = true) by (destruct is3d; reflexivity).
+  assert (Hb : block_shape_ok is3d (if is3d then [DShape ks 3 0; DShape ks 3 1; DShape ks 3 2]
+                                    else [DShape ks 2 0; DShape ks 2 1]) = true) by (destruct is3d, ks; reflexivity).
   rewrite Hb. cbn [eval_dim c c_l0 c_names ix2 opt_cast].
   rewrite (cols_by_name c rs eq_refl).
   replace (List.length (names rs)) with (List.length (map (steps_of eqbN rs) (names rs))) by apply map_length.
@@ -321,9 +321,9 @@ Lemma coord2_y (c : @ctx N T V F A) : eval_coord c (DCoordIf2 GY [IAll; I0] GY) 
 Proof. cbn [eval_coord grid_of]. destruct (r_Y (c_r0 c)) as [l|l|l]; [reflexivity|apply idx2_y|reflexivity]. Qed.
 
 (* the dataset the canonical description denotes, in the shape of assemble's inner expression *)
-Lemma eval_norm_canon (is3d : bool) (rs : results) (tws : list tower) n0 r0 l0' rest :
+Lemma eval_norm_canon (is3d : bool) (ks1 ks2 : fkey) (rs : results) (tws : list tower) n0 r0 l0' rest :
   rs = (n0, r0 :: l0') :: rest ->
-  eval_norm eqbN str nanV zeroF E is3d (mkCtx (names rs) (r0 :: l0') r0) (canon_norm is3d) rs tws =
+  eval_norm eqbN str nanV zeroF E is3d (mkCtx (names rs) (r0 :: l0') r0) (canon_norm is3d ks1 ks2) rs tws =
   if existsb (fun nm => Nat.ltb (List.length (r0 :: l0')) (List.length (steps_of eqbN rs nm))) (names rs) then None
   else match x_of is3d (r_X r0), y_of is3d (r_Y r0), zopt is3d (r_Z r0), labels_by_name eqbN (names rs) tws with
        | Some x, Some y, Some z, Some tl =>
@@ -362,9 +362,9 @@ Proof.
 Qed.
 
 (* a description whose two branches normalise to the canonical members means `assemble`, with nothing lossy *)
-Theorem run_save_canonical (sd : save_d) :
+Theorem run_save_canonical (sd : save_d) (k1 k2 k3 k4 : fkey) :
   sv_names sd = NKeys -> sv_is3d sd = (KFlx, 3) ->
-  normalize (sv_3d sd) = Some (canon_norm true) -> normalize (sv_2d sd) = Some (canon_norm false) ->
+  normalize (sv_3d sd) = Some (canon_norm true k1 k2) -> normalize (sv_2d sd) = Some (canon_norm false k3 k4) ->
   forall (rs : results) (tws : list tower),
   run_save eqbN str nanV zeroF E sd rs tws =
   option_map (fun d => (d, @nil (string * string))) (assemble eqbN str nanV zeroF rs tws).
@@ -380,12 +380,12 @@ Proof.
   cbn [c_r0]. unfold run_ds.
   change (n0 :: names rest) with (names ((n0, r0 :: l0') :: rest)).
   destruct (r_3d r0).
-  - rewrite H3. rewrite (eval_norm_canon true _ tws n0 r0 l0' rest eq_refl).
+  - rewrite H3. rewrite (eval_norm_canon true k1 k2 _ tws n0 r0 l0' rest eq_refl).
     match goal with |- context [existsb ?f ?l] => destruct (existsb f l) end; [reflexivity|].
     destruct (x_of true (r_X r0)); [|reflexivity]. destruct (y_of true (r_Y r0)); [|reflexivity].
     destruct (zopt true (r_Z r0)); [|reflexivity].
     match goal with |- context [labels_by_name eqbN ?l tws] => destruct (labels_by_name eqbN l tws) end; reflexivity.
-  - rewrite H4. rewrite (eval_norm_canon false _ tws n0 r0 l0' rest eq_refl).
+  - rewrite H4. rewrite (eval_norm_canon false k3 k4 _ tws n0 r0 l0' rest eq_refl).
     match goal with |- context [existsb ?f ?l] => destruct (existsb f l) end; [reflexivity|].
     destruct (x_of false (r_X r0)); [|reflexivity]. destruct (y_of false (r_Y r0)); [|reflexivity].
     destruct (zopt false (r_Z r0)); [|reflexivity].
@@ -399,3 +399,26 @@ Lemma run_load_canonical {file : Type} (read : file -> @dataset N L V F A) (ld :
 Proof. intros H. unfold run_load. rewrite H. reflexivity. Qed.
 
 End Main.
+
+(* ---------- statements quoted by Properties/C18.v ---------- *)
+
+Lemma fill_blocks_plain {R X : Type} (val : R -> X) (zero : X) (cs : list (list R)) (n1 : nat) :
+  option_map to_list2 (loop_fill cs (fun t ti => (t, ti)) (fun _ _ => true) val (fzeros zero n1 (List.length cs))) =
+  if forallb (fun s => List.length s <=? n1) cs
+  then Some (map (fun t => map (fun s => match nth_error s t with Some r => val r | None => zero end) cs) (seq 0 n1))
+  else None.
+Proof. apply fill_blocks; intros; reflexivity. Qed.
+
+Lemma fill_first_plain {R X : Type} (val : R -> X) (zero : X) (s0 : list R) (rest : list (list R)) :
+  option_map to_list1 (loop_fill (s0 :: rest) (fun t ti => (t, 0)) (fun t ti => ti =? 0) val
+                                 (fzeros zero (List.length s0) 1)) = Some (map val s0).
+Proof. apply fill_first; intros; reflexivity. Qed.
+
+Lemma index_mesh_coords {A : Type} (m : @mesh A) :
+  index_mesh m [I0; I0; IAll] = x_of true m /\ index_mesh m [I0; IAll; I0] = y_of true m /\
+  index_mesh m [IAll; I0; I0] = z_of m /\
+  (forall l, m = M2 l -> index_mesh m [I0; IAll] = x_of false m /\ index_mesh m [IAll; I0] = y_of false m).
+Proof.
+  split; [apply coord3_x|]. split; [apply coord3_y|]. split; [apply coord3_z|].
+  intros l Hm. subst m. split; [apply idx2_x|apply idx2_y].
+Qed.
